@@ -31,3 +31,8 @@ pub fn vx_expect<T>(o: Option<T>) -> (r: T)
     requires o is Some
     ensures r == o->Some_0
 { unimplemented!() }
+// #[derive(Clone)] on Value (checked to exist in the real source): the derived clone returns an equal value
+impl Clone for Value {
+    #[verifier::external_body]
+    fn clone(&self) -> (r: Self) ensures r == *self { unimplemented!() }
+}
